@@ -1,8 +1,8 @@
-SPECIFICATION Spec
+SPECIFICATION DSpec
 CONSTANTS
-  N = 3
+  N = 4
   RD = 2
-  CAP = 2
+  CAP = 1
   MaxOps = 4
   FaultAt = 0
   KeepStaleOnFail = FALSE
@@ -11,9 +11,10 @@ CONSTANTS
   KeepFoundBlock = FALSE
   SilentSeekHit = FALSE
   EarlyReturnOnForeign = FALSE
-  KeepCurAfterKeep = FALSE
+  KeepCurAfterKeep = TRUE
   KeepOnGet = FALSE
-  Foreign = {2, 3}
-  RealCache = FALSE
-INVARIANTS NoPanic DataIdentity ErrorsTrue NoStaleMapping CacheBounded Capacities NoLeak
-CHECK_DEADLOCK TRUE
+  Foreign = {}
+  RealCache = TRUE
+INVARIANT StopAtBad
+VIEW SView
+CHECK_DEADLOCK FALSE
